@@ -39,6 +39,21 @@ theorem cells_inhabited (k : Kind) (o : Outcome) :
     sessionFrom true (table k) o 0 ≠ [] ∨ (o = .ctorerr ∧ k.exclusive = true) := by
   cases k <;> cases o <;> decide
 
+/-- **C10 (constructor failed).** Whichever error exit a constructor takes after it took the lock (share unreadable;
+    for FROST signing also: tweak not hex, not a scalar, derivation fails), the lock is balanced at that point - no
+    process object exists afterwards, so nothing would ever release it later. -/
+theorem constructor_failure_balanced (k : Kind) :
+    ∀ p ∈ pathsOf (table k).ctor .ctorErr, Balanced (activation p (Delta.start 0)) := by
+  cases k <;> decide
+
+/-- non-vacuity: the error exits the table knows - one in ECDSA signing, four in FROST signing, none elsewhere -/
+example : (Kind.all.map fun k => (pathsOf (table k).ctor .ctorErr).length) = [0, 0, 0, 0, 1, 4] := by decide
+
+/-- the class re-derived: with an explicit release instead of the deferred one, an error exit that precedes it
+    leaves the lock held (the table itself is regenerated from the source, so such an edit also breaks `gen_table`) -/
+theorem missed_exit_leaks :
+    ∃ p ∈ pathsOf [.L, .G, .rete, .U, .fin] .ctorErr, (activation p (Delta.start 0)).held = 1 := by decide
+
 /-- **C10 (retried sessions).** With the retry rounds reachable through `Execute` (handleError classifies joined
     errors): constructor, TWO activations of `Run` on the same object - each leaving at any conditional return or
     running the protocol - and one `Stop`, on every combination of paths and for every kind (only the signing kinds
